@@ -178,10 +178,14 @@ class PDFXRef(PDFBaseXRef):
                 if pos_i is not None and genno_i is not None:
                     self.offsets[objid] = (None, pos_i, genno_i)
                 else:
-                    log.warning(
-                        f"Not adding object {objid} to xref because position {pos_b!r} "
+                    # A damaged entry makes the whole table untrustworthy: let the
+                    # caller fall back to scanning the body, which still finds the
+                    # object.
+                    error_msg = (
+                        f"Invalid XRef entry for object {objid}: position {pos_b!r} "
                         f"or generation number {genno_b!r} cannot be parsed as an int"
                     )
+                    raise PDFNoValidXRef(error_msg)
 
         log.debug("xref objects: %r", self.offsets)
         self.load_trailer(parser)
